@@ -4439,3 +4439,32 @@ M('C18', 'revoke-issuer-id-of-target-owner', PGP, "            raise TypeError\n
   "            raise TypeError\n\n        owner = self\n        if isinstance(target, PGPKey):\n            owner = target if target.is_primary else target.parent\n\n        sig = PGPSignature.new(sig_type, self.key_algorithm, hash_algo, owner.fingerprint.keyid, created=prefs.pop('created', None))", 'C18.7')
 M('C18', 'certify-issuer-algorithm-of-subject', PGP, "        sig = PGPSignature.new(sig_type, self.key_algorithm, hash_algo, self.fingerprint.keyid, created=prefs.pop('created', None))\n\n        # signature options that only make sense in certifications",
   "        signer_alg = subject.key_algorithm if isinstance(subject, PGPKey) else self.key_algorithm\n        sig = PGPSignature.new(sig_type, signer_alg, hash_algo, self.fingerprint.keyid, created=prefs.pop('created', None))\n\n        # signature options that only make sense in certifications", 'C18.7')
+# ---- third held-out wave (C14-w3mut1, C20-w3mut1/2/3) and further kinds
+RESORT = "            self._signatures.insort(other)\n            if self.parent is not None and self in self.parent._uids:\n                self.parent._uids.resort(self)\n"
+M('C14', 'resort-only-for-certifications', PGP, RESORT, "            self._signatures.insort(other)\n            if self.parent is not None and other.signer == self.parent.fingerprint.keyid \\\n                    and other.type in {SignatureType.Generic_Cert, SignatureType.Persona_Cert, SignatureType.Casual_Cert, SignatureType.Positive_Cert} \\\n                    and self in self.parent._uids:\n                self.parent._uids.resort(self)\n", 'C14.5')
+M('C14', 'resort-skipped-for-revocations', PGP, RESORT, "            self._signatures.insort(other)\n            if self.parent is not None and self in self.parent._uids and other.type != SignatureType.CertRevocation:\n                self.parent._uids.resort(self)\n", 'C14.5')
+M('C14', 'resort-only-when-newer', PGP, RESORT, "            newest = self.selfsig\n            self._signatures.insort(other)\n            if self.parent is not None and self in self.parent._uids and (newest is None or other.created > newest.created):\n                self.parent._uids.resort(self)\n", 'C14.5')
+M('C14', 'resort-dropped', PGP, RESORT, "            self._signatures.insort(other)\n", 'C14.5')
+M('C14', 'resort-before-insert', PGP, RESORT, "            if self.parent is not None and self in self.parent._uids:\n                self.parent._uids.resort(self)\n            self._signatures.insort(other)\n", 'C14.5')
+M('C14', 'resort-only-primary-uid', PGP, RESORT, "            self._signatures.insort(other)\n            if self.parent is not None and self in self.parent._uids and other.signer == self.parent.fingerprint.keyid and 'PrimaryUserID' in other._signature.subpackets:\n                self.parent._uids.resort(self)\n", 'C14.5')
+T('C14', 'twin-resort-guard-clauses', PGP, RESORT, "            self._signatures.insort(other)\n            key = self.parent\n            if key is None:\n                return self\n            if self in key._uids:\n                key._uids.resort(self)\n")
+T('C14', 'twin-resort-own-key-only', PGP, RESORT, "            self._signatures.insort(other)\n            if self.parent is not None and self in self.parent._uids:\n                if other.signer_fingerprint == self.parent.fingerprint or other.signer == self.parent.fingerprint.keyid:\n                    self.parent._uids.resort(self)\n                else:\n                    self.parent._uids.resort(self)\n")
+DEC_ZIP = "            return zlib.decompress(data, -15)"
+M('C20', 'decompress-capped-silently', CO, DEC_ZIP, "            return zlib.decompressobj(-15).decompress(data, 1 << 24)", 'C20.5')
+M('C20', 'decompress-result-sliced', CO, DEC_ZIP, "            return zlib.decompress(data, -15)[:1 << 24]", 'C20.5')
+M('C20', 'bz2-decompress-capped-silently', CO, "            return bz2.decompress(data)", "            return bz2.BZ2Decompressor().decompress(data, 16777216)", 'C20.5')
+M('C20', 'decompressobj-small-window', CO, DEC_ZIP, "            return zlib.decompressobj(-12).decompress(data)", 'C20.5')
+M('C20', 'zlib-decompressobj-capped', CO, "        if self is CompressionAlgorithm.ZLIB:\n            return zlib.decompress(data)\n", "        if self is CompressionAlgorithm.ZLIB:\n            d = zlib.decompressobj()\n            out = d.decompress(data, 1 << 26)\n            return out\n", 'C20.5')
+T('C20', 'twin-decompressobj-unbounded', CO, DEC_ZIP, "            return zlib.decompressobj(-15).decompress(data)")
+T('C20', 'twin-decompressobj-cap-checked', CO, DEC_ZIP, "            d = zlib.decompressobj(-15)\n            out = d.decompress(data, 1 << 30)\n            if d.unconsumed_tail:\n                raise ValueError('compressed data expands beyond the supported size')\n            return out")
+M('C20', 'onepass-halg-constant', PGP, "        onepass.halg = self.hash_algorithm\n", "        onepass.halg = HashAlgorithm.SHA256\n", 'C20.3')
+M('C20', 'onepass-pubalg-constant', PGP, "        onepass.pubalg = self.key_algorithm\n", "        onepass.pubalg = PubKeyAlgorithm.RSAEncryptOrSign\n", 'C20.3')
+M('C20', 'onepass-signer-from-parent', PGP, "        onepass.signer = self.signer\n        onepass.update_hlen()", "        onepass.signer = self.parent.fingerprint.keyid if self.parent is not None else self.signer\n        onepass.update_hlen()", 'C20.3')
+M('C20', 'ops-writer-type-constant', PK, "        _bytes += bytearray([self.sigtype])\n        _bytes += bytearray([self.halg])", "        _bytes += bytearray([0])\n        _bytes += bytearray([self.halg])", 'C20.6')
+M('C20', 'continuation-two-octet-offset-dropped', TY, "                    dlen = self.bytes_to_int(b[offset:offset + 2])\n                    return (((dlen - (192 << 8)) & 0xFF00) + ((dlen & 0xFF) + 192), 2, False)",
+  "                    return (((fo - 192) << 8) + a[1] + 192, 2, False)", 'C20.7')
+M('C20', 'continuation-five-octet-offset-dropped', TY, "                    return (self.bytes_to_int(b[offset + 1:offset + 5]), 5, False)", "                    return (self.bytes_to_int(b[1:5]), 5, False)", 'C20.7')
+M('C20', 'continuation-one-octet-offset-dropped', TY, "                    return (self.bytes_to_int(a[offset:offset + 1]), 1, False)", "                    return (self.bytes_to_int(a[:1]), 1, False)", 'C20.7')
+M('C20', 'continuation-field-left-in-body', TY, "                    part_len, size, partial = _parse_len(b, total)\n                    del b[total:total + size]\n", "                    part_len, size, partial = _parse_len(b, total)\n                    del b[total:total + 1]\n", 'C20.7')
+M('C20', 'partial-chunk-size-mask', TY, "                    return (1 << (fo & 0x1f), 1, True)", "                    return (1 << (fo & 0x0f), 1, True)", 'C20.7')
+M('C20', 'two-octet-length-threshold', TY, "                elif 224 > fo:  # >= 192 is implied\n                    dlen", "                elif 223 > fo:  # >= 192 is implied\n                    dlen", 'C20.7')
